@@ -1,12 +1,12 @@
 SPECIFICATION Spec
 CONSTANTS
   Trees <- const_TreesPartial
-  Ops <- const_OpsMkRm
+  Ops <- const_OpsMk
   MaxIno = 24
   KMaxLinks = 40
   EmitCases = FALSE
   RefuseDotNames = FALSE
   RefuseOPathCreate = TRUE
   KeepDotInStack = FALSE
-INVARIANTS TypeOK OutsideFrame ResultInside MkdirAllPost RemoveAllPost
+INVARIANTS TypeOK PartialBackendsAgree SymlinkStackNeverBreaks
 CHECK_DEADLOCK FALSE
